@@ -24,6 +24,13 @@ def _place_demo(wt, d, name):
         return 'cargo test --offline --test %s' % tname, ('tests/%s.rs' % tname)
     lib = os.path.join(wt, 'src', 'lib.rs')
     s = open(lib).read()
+    if 'use super::build::simple_build' in demo or demo.lstrip().startswith('// DEMO_MODULE'):
+        # a module file of the library's own test tree: src/tests/<mod>.rs + `mod <mod>;` after `mod build;`
+        m = re.search(r'DEMO_MODULE:\s*(\w+)', demo) or re.search(r'fn (demo_\w+)', demo)
+        mod = m.group(1) if m else 'demo_' + re.sub(r'\W+', '_', name).lower()
+        open(os.path.join(wt, 'src', 'tests', mod + '.rs'), 'w').write(demo)
+        open(lib, 'w').write(s.replace('mod build;', 'mod build;\n    mod %s;' % mod, 1))
+        return 'cargo test --offline --lib %s' % mod, 'src/tests/%s.rs (+ `mod %s;` in src/lib.rs mod tests)' % (mod, mod)
     k = s.rstrip().rfind('}')
     open(lib, 'w').write(s[:k] + '\n' + demo + '\n}\n')
     m = re.search(r'#\[test\]\s*(?:#\[[^\]]*\]\s*)*fn (\w+)', demo) if not re.search(r'mod (demo_\w+)', demo) else re.search(r'mod (demo_\w+)', demo)
